@@ -2,13 +2,16 @@
   C03 — loader discipline and resolution invariants (resolve.go).
   Property theorems only; helper lemmas: JSV/Proofs/ResInv.lean (invariants threaded through
   resolveDoc / resolveRefsLoop / resolveRef by open recursion + induction on fuel), ResRefs.lean,
-  ResKnown.lean, ResMono.lean, ResUri.lean.
+  ResKnown.lean, ResMono.lean, ResUri.lean; for the designation theorems (last section; the
+  declarative side is JSV/Spec/Designate.lean) ResTree.lean, ResDesig.lean, ResDesigRefs.lean.
 -/
 import JSV.Proofs.ResInv
 import JSV.Proofs.ResRefs
 import JSV.Proofs.ResKnown
 import JSV.Proofs.ResMono
 import JSV.Proofs.ResUri
+import JSV.Proofs.ResDesigRefs
+import JSV.Proofs.ResDesigMulti
 namespace JSV.C03
 open JSV Go Go.RInv
 
@@ -214,6 +217,368 @@ example : ¬ (∀ rs, Go.resolve cxEnv 5 0 "" = .ok rs →
   | fuel => rw [hr] at hc; exact absurd hc (by simp)
   | panic => rw [hr] at hc; exact absurd hc (by simp)
   | err => rw [hr] at hc; exact absurd hc (by simp)
+
+/-! ## Every `$ref` reaches the subschema the specification designates
+
+The declarative side is JSV/Spec/Designate.lean: `Doc.ResourceRoot` (lexical scope of `$id`),
+`Doc.BaseUri`, `Doc.AnchorTarget` (plain names), `Doc.FragTarget` (fragment dispatch),
+`Doc.Identifies`, `Doc.Designates`.  `D = ⟨store, draft, root⟩` is the document. -/
+
+section designation
+open Spec
+
+/-- A document accepted by checkStructure is a tree: every subschema has exactly one lineage from the
+    root, hence exactly one schema resource it belongs to. -/
+theorem resource_root_unique (st : Store) (draft : Draft) (root : NodeId) (cf : Nat)
+    (fresh : List (NodeId × Info)) (hcs : checkStructure st cf [(root, "")] [] = .ok fresh)
+    (s r r' : NodeId) (h : (⟨st, draft, root⟩ : Doc).ResourceRoot s r)
+    (h' : (⟨st, draft, root⟩ : Doc).ResourceRoot s r') : r = r' :=
+  resourceRoot_unique ⟨st, draft, root⟩
+    (tree_uniqueLineage ⟨st, draft, root⟩ _ (checkStructure_tree st cf root fresh hcs)) s r r' h h'
+
+/-- A. Lexical scope.  resolveURIs (run, as resolver.resolve does, on a document checkStructure accepted
+    and with the root's info initialised with the retrieval URI `ret`) records for every subschema `p`
+    of the document, as `Info.base`, the root of the schema resource `p` belongs to — and for that
+    resource root, as `Info.uri`, the base URI of `p`. -/
+theorem base_is_resource_root (env : Env) (draft : Draft) (root : NodeId) (ret : Uri.Url) (cf : Nat)
+    (fresh : List (NodeId × Info)) (hcs : checkStructure env.st cf [(root, "")] [] = .ok fresh)
+    (fuel : Nat) (s s' : RState)
+    (hroot : ∃ i, lookupNat root s.infos = some i ∧ i.uri = some ret)
+    (h : resolveURIsLoop env draft root fuel [(root, root)] s = .ok s') :
+    (∀ p r, (⟨env.st, draft, root⟩ : Doc).ResourceRoot p r →
+      ∃ i, lookupNat p s'.infos = some i ∧ i.base = some r) ∧
+    (∀ p r u, (⟨env.st, draft, root⟩ : Doc).ResourceRoot p r → (⟨env.st, draft, root⟩ : Doc).BaseUri ret p u →
+      ∃ i, lookupNat r s'.infos = some i ∧ i.uri = some u) := by
+  have := resolveURIs_props env ⟨env.st, draft, root⟩ rfl ret
+    (tree_uniqueLineage ⟨env.st, draft, root⟩ _ (checkStructure_tree env.st cf root fresh hcs)) fuel s s' hroot h
+  exact ⟨this.1, this.2.1⟩
+
+/-- B (soundness). If the infos of the document's schemas held no anchors before (fresh info objects),
+    every entry `a ↦ t` of the anchors of a schema `r` of the document after resolveURIs is a declaration:
+    `t` belongs to the resource rooted at `r` and declares the plain name `a` (with that dynamic flag). -/
+theorem anchors_sound (env : Env) (draft : Draft) (root : NodeId) (ret : Uri.Url) (cf : Nat)
+    (fresh : List (NodeId × Info)) (hcs : checkStructure env.st cf [(root, "")] [] = .ok fresh)
+    (fuel : Nat) (s s' : RState)
+    (hroot : ∃ i, lookupNat root s.infos = some i ∧ i.uri = some ret)
+    (hempty : ∀ b i, lookupNat b s.infos = some i → (⟨env.st, draft, root⟩ : Doc).Has b → i.anchors = [])
+    (h : resolveURIsLoop env draft root fuel [(root, root)] s = .ok s') :
+    ∀ r i, lookupNat r s'.infos = some i → (⟨env.st, draft, root⟩ : Doc).Has r → ∀ e ∈ i.anchors,
+      (⟨env.st, draft, root⟩ : Doc).AnchorTarget r e.1 e.2.schema ∧
+      (⟨env.st, draft, root⟩ : Doc).Declares e.2.schema e.1 e.2.dynamic := by
+  have := (resolveURIs_props env ⟨env.st, draft, root⟩ rfl ret
+    (tree_uniqueLineage ⟨env.st, draft, root⟩ _ (checkStructure_tree env.st cf root fresh hcs)) fuel s s' hroot h).2.2.2
+    (by intro b i hi hb e he; rw [hempty b i hi hb] at he; simp at he)
+  intro r i hi hr e he
+  obtain ⟨h1, h2⟩ := this r i hi hr e he
+  exact ⟨⟨h1, _, h2⟩, h2⟩
+
+/-- B (completeness). Every plain name declared by a schema `t` has an entry in the anchors of the
+    root `r` of the resource `t` belongs to.  (The entry may belong to another schema of the resource
+    that declares the same name: the resolver drops the "duplicate anchor" error.) -/
+theorem anchors_complete (env : Env) (draft : Draft) (root : NodeId) (ret : Uri.Url) (cf : Nat)
+    (fresh : List (NodeId × Info)) (hcs : checkStructure env.st cf [(root, "")] [] = .ok fresh)
+    (fuel : Nat) (s s' : RState)
+    (hroot : ∃ i, lookupNat root s.infos = some i ∧ i.uri = some ret)
+    (h : resolveURIsLoop env draft root fuel [(root, root)] s = .ok s') :
+    ∀ t r a dyn, (⟨env.st, draft, root⟩ : Doc).ResourceRoot t r → (⟨env.st, draft, root⟩ : Doc).Declares t a dyn →
+      ∃ i, lookupNat r s'.infos = some i ∧ (Json.lookup a i.anchors).isSome = true :=
+  (resolveURIs_props env ⟨env.st, draft, root⟩ rfl ret
+    (tree_uniqueLineage ⟨env.st, draft, root⟩ _ (checkStructure_tree env.st cf root fresh hcs)) fuel s s' hroot h).2.2.1
+
+/-- B (exactness). In a document that declares no plain name twice in one resource, the anchors of a
+    resource root map `a` to `t` iff `t` is the schema of that resource declaring `a`. -/
+theorem anchors_exact (env : Env) (draft : Draft) (root : NodeId) (ret : Uri.Url) (cf : Nat)
+    (fresh : List (NodeId × Info)) (hcs : checkStructure env.st cf [(root, "")] [] = .ok fresh)
+    (fuel : Nat) (s s' : RState)
+    (hroot : ∃ i, lookupNat root s.infos = some i ∧ i.uri = some ret)
+    (hempty : ∀ b i, lookupNat b s.infos = some i → (⟨env.st, draft, root⟩ : Doc).Has b → i.anchors = [])
+    (h : resolveURIsLoop env draft root fuel [(root, root)] s = .ok s')
+    (hnodup : (⟨env.st, draft, root⟩ : Doc).NoDupAnchors)
+    (r : NodeId) (i : Info) (hi : lookupNat r s'.infos = some i) (hr : (⟨env.st, draft, root⟩ : Doc).ResourceRoot r r)
+    (a : String) (t : NodeId) :
+    (∃ ai, Json.lookup a i.anchors = some ai ∧ ai.schema = t) ↔ (⟨env.st, draft, root⟩ : Doc).AnchorTarget r a t := by
+  constructor
+  · rintro ⟨ai, hl, rfl⟩
+    exact (anchors_sound env draft root ret cf fresh hcs fuel s s' hroot hempty h r i hi
+      (ResourceRoot.has hr) _ (lookup_mem _ _ _ hl)).1
+  · rintro ⟨htr, dyn, hd⟩
+    obtain ⟨i', hi', hsome⟩ := anchors_complete env draft root ret cf fresh hcs fuel s s' hroot h t r a dyn htr hd
+    rw [hi] at hi'
+    simp only [Option.some.injEq] at hi'
+    subst hi'
+    cases hl : Json.lookup a i.anchors with
+    | none => rw [hl] at hsome; simp at hsome
+    | some ai =>
+      refine ⟨ai, rfl, ?_⟩
+      have := (anchors_sound env draft root ret cf fresh hcs fuel s s' hroot hempty h r i hi
+        (ResourceRoot.has hr) _ (lookup_mem _ _ _ hl)).1
+      exact hnodup r a _ _ this ⟨htr, dyn, hd⟩
+
+/-- C. One call of resolveRef that loads no document (`s'.log = s.log`), in a state in which
+    resolveURIs has run for the document (`StaticInv`: ResDesigRefs.lean; resolver.resolve establishes it,
+    see `resolve_sound_selfcontained`): the schema returned is the one `ref` designates — the reference is
+    resolved against the base URI of `id`, the fragment-less URI identifies a resource `r` of the
+    document, and the fragment selects inside `r` (empty: `r`; `/…`: JSON Pointer from `r`; otherwise
+    the schema of `r` declaring that plain name).  Never another target. -/
+theorem resolveRef_designates (env : Env) (recDoc : ResolveDoc) (hrec : RecSpec env recDoc)
+    (draft : Draft) (root : NodeId) (ret : Uri.Url) (s : RState) (id : NodeId) (ref : String)
+    (o : RefOut) (s' : RState)
+    (hinv : StaticInv ⟨env.st, draft, root⟩ ret s) (hid : (⟨env.st, draft, root⟩ : Doc).Has id)
+    (h : resolveRef env recDoc root s id ref = .ok (o, s')) (hlog : s'.log = s.log) :
+    (⟨env.st, draft, root⟩ : Doc).Designates ret id ref o.target :=
+  (resolveRef_local env recDoc hrec ⟨env.st, draft, root⟩ rfl ret s id ref o s' hinv hid h hlog).2.2
+
+/-- C, in general (documents may be loaded).  In a state satisfying the invariant of all documents
+    (`GInv`: ResDesigMulti.lean; `rets r` = the retrieval URI of document `r`), with a Loader satisfying
+    the freshness assumption and a recursive resolver satisfying its specification (`RecG`, which
+    `resolveDoc env fuel` does: `resolveDoc_G`), the schema resolveRef returns is the designated one among
+    the documents resolved when it returns. -/
+theorem resolveRef_designates_among (env : Env) (top : NodeId) (recDoc : ResolveDoc)
+    (hrec : RecG env top recDoc) (hfresh : LoaderFresh env top) (rets : NodeId → Uri.Url) (s : RState)
+    (root id : NodeId) (ref : String) (o : RefOut) (s' : RState) (hg : GInv env top rets s)
+    (hid : Reach env.st root id) (h : resolveRef env recDoc root s id ref = .ok (o, s')) :
+    ∃ rets' d, s.doc? root = some d ∧ GInv env top rets' s' ∧
+      DesignatesAmong (docsOf env rets' s') ⟨env.st, d.draft, root⟩ (rets root) id ref o.target := by
+  obtain ⟨rets', d, hag, hg', _, _, _, hd, hdes⟩ :=
+    resolveRef_G env top recDoc hrec hfresh rets s root id ref o s' hg hid h
+  refine ⟨rets', d, hd, hg', ?_⟩
+  have := gDesig_among env rets' s' _ id ref o.target hdes
+  rw [show (⟨env.st, d.draft, root⟩ : Doc).root = root from rfl,
+    hag root (by unfold Registered; rw [hd]; rfl)] at this
+  exact this
+
+/-- resolveRef unfolded into table lookups, without any hypothesis: which resource the fragment-less
+    URI is looked up to (`Located`: the document's `uris`, else the `loaded` cache, else the Loader
+    followed by the recursive resolution) and the fragment dispatch with the anchors read from the
+    table (`TableFrag`). -/
+theorem resolveRef_lookup (env : Env) (recDoc : ResolveDoc) (root : NodeId) (s : RState)
+    (id : NodeId) (ref : String) (o : RefOut) (s' : RState)
+    (h : resolveRef env recDoc root s id ref = .ok (o, s')) :
+    ∃ refURI info base bInfo bu d r,
+      Uri.parse ref = .ok refURI ∧ s.info? root id = some info ∧ info.base = some base ∧
+      s.info? root base = some bInfo ∧ bInfo.uri = some bu ∧ s.doc? root = some d ∧
+      Located env recDoc root s d (Uri.resolveReference bu refURI) r s' ∧
+      TableFrag env s' root r (Uri.resolveReference bu refURI).fragment o :=
+  resolveRef_unfold env recDoc root s id ref o s' h
+
+/-- D, for resolutions that load no other document (`rs.log = []`; in particular every
+    self-contained document), without any assumption on the Loader: every `$ref` of `root.all()` has a
+    recorded target and it is the schema the reference designates, with `b` = the parsed base URI option
+    (or the empty URL) as retrieval URI.  (`resolve_sound` below is the statement for resolutions
+    that load documents.) -/
+theorem resolve_sound_selfcontained (env : Env) (fuel : Nat) (root : NodeId) (base : String) (rs : Resolved)
+    (h : Go.resolve env fuel root base = .ok rs) (hlog : rs.log = []) :
+    ∃ b, retrievalOf base = .ok b ∧
+      ∀ id ∈ allNodes env.st (env.st.size + 2) [root], ∀ n, env.st.get? id = some n → n.ref ≠ "" →
+        ∃ info t, lookupNat id rs.infos = some info ∧ info.resolvedRef = some t ∧
+          (⟨env.st, rs.draft, root⟩ : Doc).Designates b id n.ref t := by
+  obtain ⟨s, b, d, hb, hd, hdr, hinfos, ⟨fresh, hfresh, hknown⟩, hinv, hok⟩ :=
+    resolve_local env fuel root base rs h hlog
+  refine ⟨b, hb, ?_⟩
+  intro id hid n hn hne
+  obtain ⟨info, t, hi, ht, hdes⟩ := hok id hid n hn hne
+  refine ⟨info, t, ?_, ht, hdes⟩
+  rw [hinfos, lookupNat_filter_key id (fun x => d.known.contains x) s.infos
+    (hknown id (allNodes_sub_checkStructure env.st _ _ root fresh hfresh id hid))]
+  exact hi
+
+/-- D, in general.  Assumption (`LoaderFresh`, the model's "fresh nodes per document"): the Loader's
+    documents share no schema object with the root document or with each other.  Then every `$ref` of
+    `root.all()` (and, as its initial lexical target, every `$dynamicRef`) has a recorded target, and it
+    is the designated one among the documents the resolution
+    touched (`docs`: the root document with the retrieval URI `b`, and Loader documents, each with the
+    URI it was loaded from): the reference is resolved against the base URI of its schema; the
+    fragment-less URI identifies a resource of the root document, or the root of one of `docs`; the
+    fragment selects inside that document. -/
+theorem resolve_sound (env : Env) (fuel : Nat) (root : NodeId) (base : String) (rs : Resolved)
+    (hfresh : LoaderFresh env root) (h : Go.resolve env fuel root base = .ok rs) :
+    ∃ b docs, retrievalOf base = .ok b ∧
+      (∀ e ∈ docs, e.1.st = env.st ∧ ((e.1.root = root ∧ e.2 = b) ∨
+        ∃ tbl, env.loader = some tbl ∧ Json.lookup (Uri.toString e.2) tbl = some (.doc e.1.root))) ∧
+      ∀ id ∈ allNodes env.st (env.st.size + 2) [root], ∀ n, env.st.get? id = some n →
+        (n.ref ≠ "" → ∃ info t, lookupNat id rs.infos = some info ∧ info.resolvedRef = some t ∧
+          DesignatesAmong docs ⟨env.st, rs.draft, root⟩ b id n.ref t) ∧
+        (n.dynamicRef ≠ "" → ∃ info t, lookupNat id rs.infos = some info ∧ info.resolvedDynamicRef = some t ∧
+          DesignatesAmong docs ⟨env.st, rs.draft, root⟩ b id n.dynamicRef t) := by
+  obtain ⟨s, b, d, rets, hb, hret, _, _, hg, hok⟩ := resolve_G env fuel root base rs hfresh h
+  refine ⟨b, docsOf env rets s, hb, ?_, ?_⟩
+  · have := docsOf_spec env root rets s hg
+    rw [hret] at this
+    exact this
+  · intro id hid n hn
+    obtain ⟨h1, h2⟩ := hok id hid n hn
+    constructor
+    · intro hne
+      obtain ⟨info, t, hi, ht, hdes⟩ := h1 hne
+      have := gDesig_among env rets s _ id n.ref t hdes
+      rw [show (⟨env.st, rs.draft, root⟩ : Doc).root = root from rfl, hret] at this
+      exact ⟨info, t, hi, ht, this⟩
+    · intro hne
+      obtain ⟨info, t, hi, ht, hdes⟩ := h2 hne
+      have := gDesig_among env rets s _ id n.dynamicRef t hdes
+      rw [show (⟨env.st, rs.draft, root⟩ : Doc).root = root from rfl, hret] at this
+      exact ⟨info, t, hi, ht, this⟩
+
+end designation
+
+/-! ### The designation theorems on non-trivial data
+
+`{"$id":"http://a/root.json","$defs":{"a":{"$anchor":"foo"},"b":{"$id":"sub.json","$defs":{"c":{"$anchor":"foo"}},
+"items":{"$ref":"#foo"}}},"allOf":[{"$ref":"#foo"},{"$ref":"sub.json#foo"},{"$ref":"sub.json#/$defs/c"}]}`:
+an embedded resource (`$id` in a subschema) with an anchor inside it and an anchor of the same name
+outside it.  The Spec's designations, computed from the definitions, agree with what Go.resolve records. -/
+
+section designation_examples
+open Spec
+
+
+def dsStore : Store := #[
+  { id := "http://a/root.json", defs := some [("a", 1), ("b", 2)], allOf := some [3, 4, 5] },  -- 0
+  { anchor := "foo" },                                                                          -- 1
+  { id := "sub.json", defs := some [("c", 6)], items := some 7 },                              -- 2
+  { ref := "#foo" },                                                                            -- 3
+  { ref := "sub.json#foo" },                                                                    -- 4
+  { ref := "sub.json#/$defs/c" },                                                               -- 5
+  { anchor := "foo" },                                                                          -- 6
+  { ref := "#foo" } ]                                                                           -- 7
+
+def dsEnv : Env := { st := dsStore, reOk := fun _ => true, loader := none }
+def dsDoc : Doc := ⟨dsStore, .d2020, 0⟩
+
+example : ((Go.resolve dsEnv 1 0 "").bind fun rs =>
+      .ok (rs.log, rs.infos.map fun e => (e.1, e.2.base, e.2.resolvedRef))) =
+    .ok ([], [(0, some 0, none), (1, some 0, none), (2, some 2, none), (6, some 2, none), (7, some 2, some 6),
+      (3, some 0, some 1), (4, some 0, some 6), (5, some 0, some 6)]) := by
+  decide +kernel
+
+example : dsDoc.ResourceRoot 6 2 := ⟨[2, 6], by decide +kernel, by decide +kernel⟩
+example : dsDoc.ResourceRoot 1 0 := ⟨[1], by decide +kernel, by decide +kernel⟩
+example : dsDoc.ResourceRoot 2 2 := ⟨[2], by decide +kernel, by decide +kernel⟩
+example : dsDoc.ResourceRoot 7 2 := ⟨[2, 7], by decide +kernel, by decide +kernel⟩
+example : dsDoc.AnchorTarget 2 "foo" 6 :=
+  ⟨⟨[2, 6], by decide +kernel, by decide +kernel⟩, false, _, rfl, by decide +kernel⟩
+example : dsDoc.AnchorTarget 0 "foo" 1 :=
+  ⟨⟨[1], by decide +kernel, by decide +kernel⟩, false, _, rfl, by decide +kernel⟩
+example : dsDoc.FragTarget 2 "foo" 6 := by
+  unfold Doc.FragTarget
+  rw [if_neg (by decide +kernel), if_neg (by decide +kernel)]
+  exact ⟨⟨[2, 6], by decide +kernel, by decide +kernel⟩, false, _, rfl, by decide +kernel⟩
+example : dsDoc.FragTarget 2 "/$defs/c" 6 := by
+  unfold Doc.FragTarget
+  rw [if_neg (by decide +kernel), if_pos (by decide +kernel)]
+  decide +kernel
+example : dsDoc.FragTarget 2 "" 2 := by
+  unfold Doc.FragTarget
+  rw [if_pos rfl]
+example : Uri.toString (baseUriAlong dsDoc {} [2, 7]) = "http://a/sub.json" := by decide +kernel
+example : Uri.toString (baseUriAlong dsDoc {} [3]) = "http://a/root.json" := by decide +kernel
+/-- `resolve_sound_selfcontained` applies to the run above and yields, for the reference in schema 7 (inside the
+    embedded resource), a designation whose target is the recorded one, 6 — not the `foo` of the root
+    resource, 1 -/
+example : dsDoc.Designates {} 7 "#foo" 6 := by
+  have hc : (match Go.resolve dsEnv 1 0 "" with
+      | .ok rs => rs.log == [] && rs.draft == .d2020 && ((lookupNat 7 rs.infos).bind (·.resolvedRef)) == some 6
+      | _ => false) = true := by decide +kernel
+  cases hr : Go.resolve dsEnv 1 0 "" with
+  | ok rs =>
+    rw [hr] at hc
+    simp only [Bool.and_eq_true, beq_iff_eq] at hc
+    obtain ⟨⟨hlog, hdraft⟩, h7⟩ := hc
+    obtain ⟨b, hb, hall⟩ := resolve_sound_selfcontained dsEnv 1 0 "" rs hr hlog
+    have hb' : b = {} := by
+      have : retrievalOf "" = .ok ({} : Uri.Url) := rfl
+      rw [this] at hb
+      simp only [Res.ok.injEq] at hb
+      exact hb.symm
+    subst hb'
+    obtain ⟨info, t, hi, ht, hd⟩ := hall 7 (by decide +kernel) { ref := "#foo" } rfl (by decide)
+    rw [hi] at h7
+    simp only [Option.bind_some, ht, Option.some.injEq] at h7
+    subst h7
+    rw [hdraft] at hd
+    exact hd
+  | fuel => rw [hr] at hc; exact absurd hc (by simp)
+  | panic => rw [hr] at hc; exact absurd hc (by simp)
+  | err => rw [hr] at hc; exact absurd hc (by simp)
+
+/-! draft-07: `$id: "#foo"` declares the plain name `foo`; an `$id` beside `$ref` is ignored (schema 2
+    stays in the root resource and its reference is resolved against the root's URI) -/
+
+def d7Store : Store := #[
+  { schema := "http://json-schema.org/draft-07/schema#", id := "http://a/r7.json",
+    definitions := some [("a", 1), ("b", 2)], allOf := some [3] },   -- 0
+  { id := "#foo" },                                                    -- 1
+  { id := "other.json", ref := "#foo" },                               -- 2
+  { ref := "#foo" } ]                                                  -- 3
+def d7Env : Env := { st := d7Store, reOk := fun _ => true, loader := none }
+def d7Doc : Doc := ⟨d7Store, .d7, 0⟩
+
+example : ((Go.resolve d7Env 1 0 "").bind fun rs =>
+      .ok (rs.log, rs.infos.map fun e => (e.1, e.2.base, e.2.resolvedRef))) =
+    .ok ([], [(0, some 0, none), (3, some 0, some 1), (1, some 0, none), (2, some 0, some 1)]) := by
+  decide +kernel
+example : ((Go.resolve d7Env 1 0 "").bind fun rs => .ok (rs.draft == .d7)) = .ok true := by decide +kernel
+example : d7Doc.ResourceRoot 2 0 := ⟨[2], by decide +kernel, by decide +kernel⟩
+example : d7Doc.AnchorTarget 0 "foo" 1 :=
+  ⟨⟨[1], by decide +kernel, by decide +kernel⟩, false, _, rfl, by decide +kernel⟩
+
+/-- the universe `exEnv` (root document 0, Loader document 3) satisfies the freshness assumption -/
+theorem exEnv_fresh : LoaderFresh exEnv 0 := by
+  intro tbl htbl
+  have ht : tbl = [("http://a/other.json", .doc 3)] := by
+    have : exEnv.loader = some [("http://a/other.json", .doc 3)] := rfl
+    rw [this] at htbl
+    simp only [Option.some.injEq] at htbl
+    exact htbl.symm
+  subst ht
+  have hkey : ∀ k r, Json.lookup k [("http://a/other.json", LoaderResult.doc 3)] = some (.doc r) →
+      k = "http://a/other.json" ∧ r = 3 := by
+    intro k r h
+    rw [Json.lookup_cons] at h
+    split at h
+    · rename_i hk
+      simp only [Option.some.injEq, LoaderResult.doc.injEq] at h
+      exact ⟨hk.symm, h.symm⟩
+    · simp at h
+  constructor
+  · intro k r hk b hb hb0
+    obtain ⟨_, rfl⟩ := hkey k r hk
+    have h1 := reach_sub_closed exStore [3, 4] 3 b (by simp) (by decide +kernel) hb
+    have h2 := reach_sub_closed exStore [0, 1, 2] 0 b (by simp) (by decide +kernel) hb0
+    simp only [List.mem_cons, List.mem_nil_iff, or_false] at h1 h2
+    rcases h1 with rfl | rfl <;> simp at h2
+  · intro k1 k2 r1 r2 hne h1 h2
+    exact absurd ((hkey k1 r1 h1).1.trans (hkey k2 r2 h2).1.symm) hne
+
+/-- so `resolve_sound` applies to the resolution of `exEnv`: the reference `other.json#/$defs/x` of schema 1
+    designates, among the documents resolved, the recorded target 4 (in the Loader document) -/
+example : ∃ b docs, DesignatesAmong docs ⟨exStore, .d2020, 0⟩ b 1 "other.json#/$defs/x" 4 := by
+  have hc : (match Go.resolve exEnv 5 0 "" with
+      | .ok rs => rs.draft == .d2020 && ((lookupNat 1 rs.infos).bind (·.resolvedRef)) == some 4
+      | _ => false) = true := by decide +kernel
+  cases hr : Go.resolve exEnv 5 0 "" with
+  | ok rs =>
+    rw [hr] at hc
+    simp only [Bool.and_eq_true, beq_iff_eq] at hc
+    obtain ⟨hdraft, h1⟩ := hc
+    obtain ⟨b, docs, _, _, hall⟩ := resolve_sound exEnv 5 0 "" rs exEnv_fresh hr
+    obtain ⟨info, t, hi, ht, hd⟩ := (hall 1 (by decide +kernel) { ref := "other.json#/$defs/x" } rfl).1 (by decide)
+    rw [hi] at h1
+    simp only [Option.bind_some, ht, Option.some.injEq] at h1
+    subst h1
+    rw [hdraft] at hd
+    exact ⟨b, docs, hd⟩
+  | fuel => rw [hr] at hc; exact absurd hc (by simp)
+  | panic => rw [hr] at hc; exact absurd hc (by simp)
+  | err => rw [hr] at hc; exact absurd hc (by simp)
+
+/-- the universe of the counterexample above (`cxEnv`: one document object served under two URIs)
+    violates the assumption -/
+example : ¬ LoaderFresh cxEnv 0 := by
+  intro h
+  exact (h _ rfl).2 "http://a/x" "http://a/y" 3 3 (by decide) rfl rfl 3 (reach_root _ 3) (reach_root _ 3)
+
+end designation_examples
 
 /-! ## Tests of the URL model against RFC 3986 §5.4 (reference resolution examples) -/
 
